@@ -26,12 +26,12 @@ fn spec() -> Spec {
             Kind { name: "rx160", quick: 48, thorough: 1_500, serial: false },
             Kind { name: "shared_history", quick: 1_500, thorough: 60_000, serial: false },
         ],
-        rule: "verdicts: synthetic cell (box links overlapping at the joints, vertex counts anti-correlated with size, with/without tool and base, 0..3 environment boxes of which most are placed at a designed gap d = r*u, u in [0,2], from a link or the tool) x safety table (touch-only, positive distances with to_environment != to_robot_default, per-pair overrides in both key orders, NEVER_COLLIDES on random pairs incl. pairs naming J1, J_BASE, J_TOOL and environment ids) x mode x posture; collision_details, collides and near(q, other table) are compared with the brute-force triangle/triangle oracle over the property's relevant pair list. schedules: the same query in rayon pools of 1,2,3,4,8,16 threads x repeats x injected delays at task boundaries, results must be identical; the hook event log must show exactly the relevant non-exempt pairs evaluated in all-collisions mode. non-trivial = at least one pair colliding and one free; distinct = hash(cell, posture, table) Workload additions: obstacle meshes modelled away from their local origin; touch-only written as +0.0 or -0.0; a seventh of the tables without any positive distance (0 / NEVER_COLLIDES overrides only); a sixth of the bases replaced by a box at a designed gap from a link or the tool (a third of those pairs exempt); kind shared_history = cells sharing the robot but differing in table / mode / one obstacle asked the same joint vector alternately.",
+        rule: "verdicts: synthetic cell (box links overlapping at the joints, vertex counts anti-correlated with size, with/without tool and base, 0..3 environment boxes of which most are placed at a designed gap d = r*u, u in [0,2], from a link or the tool) x safety table (touch-only, positive distances with to_environment != to_robot_default, per-pair overrides in both key orders, NEVER_COLLIDES on random pairs incl. pairs naming J1, J_BASE, J_TOOL and environment ids) x mode x posture; collision_details, collides and near(q, other table) are compared with the brute-force triangle/triangle oracle over the property's relevant pair list. schedules: the same query in rayon pools of 1,2,3,4,8,16 threads x repeats x injected delays at task boundaries, results must be identical; the hook event log must show exactly the relevant non-exempt pairs evaluated in all-collisions mode. non-trivial = at least one pair colliding and one free; distinct = hash(cell, posture, table) Workload additions: obstacle meshes modelled away from their local origin; touch-only written as +0.0 or -0.0; a seventh of the tables without any positive distance (0 / NEVER_COLLIDES overrides only); a sixth of the bases replaced by a box at a designed gap from a link or the tool (a third of those pairs exempt); kind shared_history = cells sharing the robot but differing in table / mode / one obstacle asked the same joint vector alternately. Round 10: cells that differ in where the robot or one obstacle stands; half of the histories overwrite the public fields of ONE robot object in place between the queries; obstacles that are flat axis-aligned plates.",
         assumptions: vec![
             "band = 1e-4 m + 1e-5*reach around each threshold is ambiguous (library places meshes in f32, oracle in f64); in touch mode a body wholly inside another without surface contact is ambiguous (parry meshes are surfaces)",
             "tables never contain both key orders of one pair with different values",
         ],
-        minimums: vec![("oracle_evals", 100_000, 5_000_000), ("pairs.colliding", 10_000, 500_000), ("pairs.free", 50_000, 2_500_000), ("pairs.exempt", 2_000, 100_000), ("hook.tasks_observed", 5_000, 150_000), ("history.steps", 6_000, 250_000)],
+        minimums: vec![("oracle_evals", 100_000, 5_000_000), ("pairs.colliding", 10_000, 500_000), ("pairs.free", 50_000, 2_500_000), ("pairs.exempt", 2_000, 100_000), ("hook.tasks_observed", 5_000, 150_000), ("history.steps", 6_000, 250_000), ("history.in_place", 300, 12_000), ("cells.with_flat_plate", 250, 15_000)],
     }
 }
 
@@ -372,7 +372,13 @@ fn count_oracle(mon: &mut Mon, o: &Oracle) {
 
 fn verdicts(idx: u64, rng: &mut Rng, mon: &mut Mon) {
     let mode = pick_mode(rng);
-    let (cell, q) = gen_scenario(rng, idx, mode);
+    let (mut cell, q) = gen_scenario(rng, idx, mode);
+    // (a tenth of the cells additionally has a floor / wall: a flat plate exactly aligned with the world axes)
+    if rng.bool(0.1) {
+        let target = rng.usize(6);
+        cell.add_plate(rng, &q, target);
+        mon.count("cells.with_flat_plate");
+    }
     let robot = cell.build();
     let oracle = cell.oracle(&q, &cell.safety);
     count_oracle(mon, &oracle);
@@ -439,7 +445,7 @@ fn shared_history(idx: u64, rng: &mut Rng, mon: &mut Mon) {
     let mut cells = vec![first.clone()];
     for _ in 0..(1 + rng.usize(2)) {
         let mut c = first.clone();
-        match rng.usize(4) {
+        match rng.usize(6) {
             0 => {
                 let m = pick_mode(rng);
                 c.safety = c.random_safety(rng, m);
@@ -453,11 +459,43 @@ fn shared_history(idx: u64, rng: &mut Rng, mon: &mut Mon) {
                 let d = rng.range(-0.03, 0.0);
                 c.add_designed_obstacle(rng, &q, target, d);
             }
-            _ => c.safety.mode = if c.safety.mode == CheckMode::AllCollsions { CheckMode::FirstCollisionOnly } else { CheckMode::AllCollsions },
+            3 => c.safety.mode = if c.safety.mode == CheckMode::AllCollsions { CheckMode::FirstCollisionOnly } else { CheckMode::AllCollsions },
+            // the robot stands elsewhere in the cell (by millimetres or by metres)
+            4 if c.base.is_some() => {
+                let d = rng.logu(1e-3, 3.0);
+                for k in 0..3 {
+                    c.base_tf.p[k] += rng.range(-1.0, 1.0) * d;
+                }
+            }
+            // one obstacle stands elsewhere, the number of obstacles is unchanged
+            _ if !c.env.is_empty() => {
+                let k = rng.usize(c.env.len());
+                let d = rng.logu(1e-3, 1.0);
+                for a in 0..3 {
+                    c.env[k].1.p[a] += rng.range(-1.0, 1.0) * d;
+                }
+            }
+            _ => {
+                let m = pick_mode(rng);
+                c.safety = c.random_safety(rng, m);
+            }
         }
         cells.push(c);
     }
     let robots: Vec<_> = cells.iter().map(|c| c.build()).collect();
+    // Half of the histories edit ONE robot in place instead of keeping one object per cell: the body and the base
+    // transform of a by-value Base wrapper (all public fields) are overwritten before each query, so consecutive queries
+    // see the same objects at the same addresses with other contents.
+    let in_place = rng.bool(0.5);
+    let inner: Arc<dyn rs_opw_kinematics::kinematic_traits::Kinematics> = {
+        let bare: Arc<dyn rs_opw_kinematics::kinematic_traits::Kinematics> = Arc::new(rs_opw_kinematics::kinematics_impl::OPWKinematics::new_with_constraints(crate::gen::to_params(&first.robot.rp), first.constraints));
+        if first.tool.is_some() { Arc::new(rs_opw_kinematics::tool::Tool { robot: bare, tool: crate::gen::fr_to_iso(&first.tool_tf) }) } else { bare }
+    };
+    let mut kin_ip = rs_opw_kinematics::tool::Base { robot: inner, base: crate::gen::fr_to_iso(&first.base_tf) };
+    let mut body_ip = first.body();
+    if in_place {
+        mon.count("history.in_place");
+    }
     // a second posture close to the first (shares most link poses up to rounding of a cache key)
     let mut q2 = q;
     q2[rng.usize(6)] += rng.sign() * rng.logu(1e-9, 0.3);
@@ -471,10 +509,16 @@ fn shared_history(idx: u64, rng: &mut Rng, mon: &mut Mon) {
         let oracle = cell.oracle(&qq, &cell.safety);
         mon.count("history.steps");
         let api = rng.usize(3);
-        let detail = |extra: serde_json::Value| json!({"cells": cells.iter().map(|c| c.json()).collect::<Vec<_>>(), "cell_index": r, "step": step, "q": jf(&qq), "mode": mode_name(m), "extra": extra, "oracle": oracle_json(&oracle)});
+        let detail = |extra: serde_json::Value| json!({"cells": cells.iter().map(|c| c.json()).collect::<Vec<_>>(), "cell_index": r, "step": step, "q": jf(&qq), "mode": mode_name(m), "edited_in_place": in_place, "extra": extra, "oracle": oracle_json(&oracle)});
+        if in_place {
+            kin_ip.base = crate::gen::fr_to_iso(&cell.base_tf);
+            body_ip = cell.body();
+        }
         match api {
             0 | 1 => {
-                let rep = if api == 0 { robots[r].collision_details(&qq) } else { robots[r].near(&qq, &cell.safety.build()) };
+                let rep = if in_place {
+                    if api == 0 { body_ip.collision_details(&qq, &kin_ip) } else { body_ip.near(&qq, &kin_ip, &cell.safety.build()) }
+                } else if api == 0 { robots[r].collision_details(&qq) } else { robots[r].near(&qq, &cell.safety.build()) };
                 let j = judge_report(cell, &qq, &oracle, &rep, m, if api == 0 { "collision_details" } else { "near" });
                 for (sig, what, ex) in &j.violations {
                     let sig = if sig.ends_with("(parry)") { sig.clone() } else { format!("history:{}", sig) };
@@ -485,7 +529,7 @@ fn shared_history(idx: u64, rng: &mut Rng, mon: &mut Mon) {
                 }
             }
             _ => {
-                let c = robots[r].collides(&qq);
+                let c = if in_place { body_ip.collides(&qq, &kin_ip) } else { robots[r].collides(&qq) };
                 let nc = oracle.set(Verdict::Colliding).len();
                 let expect_true = nc > 0 && m != CheckMode::NoCheck;
                 let expect_false = m == CheckMode::NoCheck || (nc == 0 && !oracle.any_ambiguous());
